@@ -486,3 +486,34 @@ def rule_span_lines_innermost_only(ctx, facts, rule):
     ctx.check(not bad and n >= 3, rule, STACK.rstrip(":"), "-",
               "the scope stack is only accessed from its top (last / last_mut / push / pop / len / is_empty)", "%d accesses" % n,
               "span_lines accessed with %s: an enclosing scope can be taken for the current one" % bad, extra="innermost-only")
+
+
+def rule_scope_state_restored(ctx, facts, rule):
+    """The scope stack carries no state that opening a scope changes and closing it does not put back: every field of
+    LocalSpanStack that register_span_line assigns -- other than the epoch counter, which only ever advances -- is assigned
+    again in unregister_and_collect. (A cached "the top scope records" flag set on push and not recomputed on pop leaves the
+    enclosing scope with the inner scope's answer.)"""
+    reg = ctx.need_fn(facts, STACK + "register_span_line", rule)
+    unreg = ctx.need_fn(facts, STACK + "unregister_and_collect", rule)
+    if reg is None or unreg is None:
+        return
+
+    def written(fn):
+        out = set()
+        for blk in fn.blocks:
+            if blk["cleanup"]:
+                continue
+            for st in blk["stmts"]:
+                if st["k"] == "assign" and st["lhs"]["l"] == 1 and st["lhs"]["p"][:1] == ["*"]:
+                    fl = [q for q in st["lhs"]["p"] if q != "*"]
+                    if fl:
+                        out.add(fl[0])
+        return out
+    w_reg = {f for f in written(reg) if "epoch" not in f}
+    w_un = written(unreg)
+    missing = sorted(w_reg - w_un)
+    ctx.check(not missing, rule, reg.path, reg.span,
+              "whatever register_span_line stores in the stack besides the new line (and the epoch counter) is stored again when the scope is released",
+              "fields written on open: %s; on release: %s" % (sorted(w_reg), sorted(w_un)),
+              "fields %s are written when a scope is opened and not when it is released: after an inner scope ends the enclosing scope "
+              "keeps the inner scope's value" % missing, extra="state-restored")
